@@ -10,7 +10,7 @@ From stdpp Require Import gmap.
 From Coq Require Import ZArith Lia List.
 From V Require Import Base.Res Base.ResLemmas Sched.LedgerModel Sched.StmtModel Sched.LedgerCodec Sched.GangModel
                       Sched.CycleModel Sched.LedgerInvP Sched.NodeCapLemmas Sched.NodeCapLemmasCycle Sched.NodeCapCheck
-                      Sched.NodeCapLemmasEvict.
+                      Sched.NodeCapLemmasEvict Sched.NodeCapSelectVictims.
 Import ListNotations.
 Open Scope Z_scope.
 
@@ -95,5 +95,58 @@ Proof.
     apply bool_decide_eq_true in H. apply (H j c Hl Hst).
   - split; [vm_compute; reflexivity|]. intros j c Hl.
     assert (H : bool_decide (map_Forall (fun j c => t_id c = j /\ t_node c = Some (n_id ev_n1)) (n_tasks ev_n1)) = true) by (vm_compute; reflexivity).
+    apply bool_decide_eq_true in H. apply (H j c Hl).
+Qed.
+
+(* ---------- topology-aware preemption's dry run (seeded mutant C02-r5-1) ---------- *)
+
+(* n: 8 cpu; v1, v2, v3 running 2 cpu each (2 idle); A (4 cpu) has been pipelined after evicting v1:
+   Idle 2, Releasing 2, Pipelined 4 (Pipelined > Releasing).  B (3 cpu) needs BOTH v2 and v3. *)
+Definition tp_nodes : list node_spec := [mkNodeSpec 1 true 8000 1024 20 0].
+Definition tp_tasks : list task_spec :=
+  [mkTaskSpec 1 1 1 0 2000 16 0 Running (Some 1%positive) true; mkTaskSpec 2 1 1 0 2000 16 0 Running (Some 1%positive) true;
+   mkTaskSpec 3 1 1 0 2000 16 0 Running (Some 1%positive) true;
+   mkTaskSpec 4 2 1 2 4000 16 0 Pending None true; mkTaskSpec 5 2 1 1 3000 16 0 Pending None true].
+Definition tp_n0 : node := node1 (build 2 tp_nodes ev_jobs tp_tasks).
+Definition tp_A : task := task_of_spec 2 (mkTaskSpec 4 2 1 2 4000 16 0 Pending None true).
+Definition tp_B : task := task_of_spec 2 (mkTaskSpec 5 2 1 1 3000 16 0 Pending None true).
+Definition tp_n1 : node := fst (npipeline 2 (nevict 2 tp_n0 1) tp_A).
+Definition all_votes_yes (_ : node) : bool := true.
+
+(* the code's dry run: the final victims are v2 and v3, and the node stays within capacity *)
+Example select_victims_future_idle :
+  select_victims 2 all_votes_yes future_idle tp_B tp_n1 [2; 3]%positive = Some [3; 2]%positive /\
+  match preempt_on 2 tp_B tp_n1 [3; 2]%positive with inl (n', _) => nwc_b 2 n' | inr _ => false end = true.
+Proof. vm_compute. split; reflexivity. Qed.
+
+(* the reprieve test against Idle instead of FutureIdle (mutant C02-r5-1): v3 is reprieved because the
+   dry-run Idle (which counts the removed victims, but not what is already promised to A) still
+   holds B; only v2 is evicted and B is pipelined: Pipelined 7 against Idle + Releasing 6 *)
+Definition select_victims_idle_reprieve (p : task) (n : node) (q : list positive) : option (list positive) :=
+  let '(dry, pots) := remove_until 2 all_votes_yes future_idle p n q [] in
+  match pots with
+  | [] => None
+  | _ => if pfits 2 all_votes_yes future_idle p dry
+         then match reprieve 2 all_votes_yes n_idle p n dry pots [] with Some (_, vs) => Some vs | None => None end
+         else None
+  end.
+
+Theorem reprieve_against_idle_refuted :
+  nwc_b 2 tp_n1 = true /\
+  select_victims_idle_reprieve tp_B tp_n1 [2; 3]%positive = Some [2]%positive /\
+  match preempt_on 2 tp_B tp_n1 [2]%positive with
+  | inl (n', _) => (nwc_b 2 n', fut_amt n' DCpu)
+  | inr _ => (true, 0)
+  end = (false, -16000).
+Proof. vm_compute. repeat split; reflexivity. Qed.
+
+Example tp_n1_base : nbase 2 tp_n1.
+Proof.
+  constructor.
+  - vm_compute. reflexivity.
+  - apply node_safe_b_sound; [lia|vm_compute; reflexivity].
+  - intros j c Hl Hst. left. vm_compute. discriminate.
+  - split; [vm_compute; reflexivity|]. intros j c Hl.
+    assert (H : bool_decide (map_Forall (fun j c => t_id c = j /\ t_node c = Some (n_id tp_n1)) (n_tasks tp_n1)) = true) by (vm_compute; reflexivity).
     apply bool_decide_eq_true in H. apply (H j c Hl).
 Qed.
